@@ -70,6 +70,8 @@ const (
 	OpFToS // fp -> signed bv (RTZ), p1 = width
 	OpFToU
 	OpFIsNaN
+	OpFAbs
+	OpFRound // to an integral value, p1 = mode: 0 floor, 1 ceil, 2 trunc, 3 round half away
 )
 
 var opNames = map[Op]string{
@@ -79,6 +81,7 @@ var opNames = map[Op]string{
 	OpConcat: "concat", OpIte: "ite", OpEq: "=", OpULt: "bvult", OpULe: "bvule",
 	OpSLt: "bvslt", OpSLe: "bvsle", OpNot: "not", OpBAnd: "and", OpBOr: "or",
 	OpFAdd: "fp.add RNE", OpFSub: "fp.sub RNE", OpFMul: "fp.mul RNE", OpFDiv: "fp.div RNE",
+	OpFAbs: "fp.abs",
 	OpFNeg: "fp.neg", OpFLt: "fp.lt", OpFLe: "fp.leq", OpFEq: "fp.eq", OpFIsNaN: "fp.isNaN",
 }
 
@@ -861,7 +864,7 @@ func neverNaN(t *Term) bool {
 		return !math.IsNaN(t.Float())
 	case OpFFromS, OpFFromU:
 		return true
-	case OpFNeg:
+	case OpFNeg, OpFAbs, OpFRound:
 		return neverNaN(t.a[0])
 	case OpFMul:
 		return (finiteNonZero(t.a[0]) && neverNaN(t.a[1])) || (finiteNonZero(t.a[1]) && neverNaN(t.a[0]))
@@ -883,6 +886,32 @@ func (s *Store) FIsNaN(x *Term) *Term {
 		return tFalse
 	}
 	return s.mk(OpFIsNaN, KBool, 0, 0, 0, x)
+}
+
+func (s *Store) FAbs(x *Term) *Term {
+	if x.IsConst() {
+		return FP(math.Abs(x.Float()))
+	}
+	return s.mk(OpFAbs, KFP, 0, 0, 0, x)
+}
+
+// FRound: math.Floor (0), Ceil (1), Trunc (2), Round (3).
+func (s *Store) FRound(x *Term, mode int) *Term {
+	if x.IsConst() {
+		f := x.Float()
+		switch mode {
+		case 0:
+			f = math.Floor(f)
+		case 1:
+			f = math.Ceil(f)
+		case 2:
+			f = math.Trunc(f)
+		default:
+			f = math.Round(f)
+		}
+		return FP(f)
+	}
+	return s.mk(OpFRound, KFP, 0, mode, 0, x)
 }
 
 func (s *Store) FNeg(x *Term) *Term {
@@ -1007,6 +1036,8 @@ func (t *Term) body() string {
 		return fmt.Sprintf("((_ fp.to_sbv %d) RTZ %s)", t.p1, r(0))
 	case OpFToU:
 		return fmt.Sprintf("((_ fp.to_ubv %d) RTZ %s)", t.p1, r(0))
+	case OpFRound:
+		return fmt.Sprintf("(fp.roundToIntegral %s %s)", []string{"RTN", "RTP", "RTZ", "RNA"}[t.p1], r(0))
 	}
 	name, ok := opNames[t.op]
 	if !ok {
@@ -1184,6 +1215,10 @@ func (s *Store) rebuild(t *Term, a []*Term) *Term {
 		return s.fbin(t.op, a[0], a[1])
 	case OpFNeg:
 		return s.FNeg(a[0])
+	case OpFAbs:
+		return s.FAbs(a[0])
+	case OpFRound:
+		return s.FRound(a[0], t.p1)
 	case OpFLt, OpFLe, OpFEq:
 		return s.fcmp(t.op, a[0], a[1])
 	case OpFFromS:
